@@ -34,7 +34,7 @@ MANIFEST = {
              "element kinds, unknown element/attribute, missing required attribute, guideline shape and angle range, malformed number, non-dictionary lib), "
              "returned_glyph_wellformed for every event list, attribute-order independence for all nine attribute loops and for whole documents, the format-1 anchor "
              "upgrade, legal_accepted for a generative grammar of format-2 documents (any item order, comments anywhere, any attribute order, any spelling that reads "
-             "back), legal_accepted_v1 for its format-1 part, and the link from the table-driven specification: judge_clean_accepted (Spec.judge rd d = ([], false) for a document of the shape the tokeniser delivers gives parseGlif rd (Spec.flatten d) = .ok _, formats 1 and 2, under ReadsNumerals) and, for a fragment of the converse, judge_hard_error_rejected (clean items up to a position, then an unknown element, a format-2-only element in format 1, an unknown attribute on a body element or a lib that is not a dictionary: rejected). "
+             "back), legal_accepted_v1 for its format-1 part, and the link from the table-driven specification: judge_clean_accepted (Spec.judge rd d = ([], false) for a document of the shape the tokeniser delivers gives parseGlif rd (Spec.flatten d) = .ok _, formats 1 and 2, under ReadsNumerals) and the converse family by family: the exact parser state after a clean prefix (CleanState: identifiers seen = identifiers of the prefix, once-only flags = which elements occurred) proved once, then judge_bad_item_rejected and its corollaries - a second advance/outline/lib/image, a second note after a note with text, an identifier used before, every non-finding rule elemCheck/itemCheck reports for a non-outline body item (missing required attribute, malformed number, angle, name, colour, code point, identifier, image name, unknown attribute/element, guideline shape, format-1 violations, lib not a dictionary), and inside the outline after clean siblings: unknown elements, every component and point rule, an illegal point sequence (not C11.Legal) - rejected; the clauses that are recorded findings are excluded by explicit lists (findingItemRules), judge_sound_and_complete itself is not reached (docs/notes/C12.md names the gap). "
              "SOURCE-LEVEL TIE: tools/extract_glif_parser.py re-reads src/glyph/parse.rs on every run (attribute names per loop, required attributes and guideline "
              "shapes, element dispatch per level, format-1 refusals, once-only guards, defaults, level error variants, comment skipping, and WHICH name each comparison reads: name() / attr.key, never local_name()); ten audited source_* theorems "
              "state that these tables are the model's (each model table is proved, for all strings, to characterise its function) and the specification's. "
